@@ -85,6 +85,41 @@ def run(ck):
             ck.violation("streams 0 and 1 of one file were started from the same IV (cmode %d, T=%d)" % (c.cm, c.T), rep)
         if len(ck.cov["samples"]) < 6:
             ck.cov["samples"].append({"cmode": c.cm, "T": c.T, "n": c.n, "class": c.cls, "iv_slots_distinct": True, "streams_0_1_share_iv": shared})
+    # a stream is CONTINUOUS across its chunks: in CBC / CFB the first block of chunk k (k >= T) chains on the last ciphertext block of
+    # chunk k-T, the previous chunk of the same stream - whatever IV the stream started from (independent of finding K2)
+    mdrv = ck.model_driver()
+    cl, cmeta = [], {}
+    for j in range(12 if big else 6):
+        T, cm = [1, 2, 2, 3][j % 4], [1, 3][j % 2]
+        nch = T * r.randrange(2, 4) + r.randrange(0, T)
+        plain = rnd_bytes(r, nch * CH + r.randrange(0, 30))
+        if j % 3 == 0:        # equal plaintext chunks within one stream
+            plain = (plain[:CH] * nch) + plain[nch * CH:]
+        c = EncCase(len(plain), cm, j % 3, T, rnd_bytes(r, 16), rnd_seed(r), plain, "continuity")
+        cl.append("k%d %s" % (j, c.line()))
+        cmeta[j] = c
+    co = wv.run_lines([exe], cl, env=env)
+    sl, smeta = [], {}
+    for j, c in cmeta.items():
+        head = split_impl(co.get("k%d" % j, ""))[0]
+        if not head.startswith("OK "):
+            continue
+        f = bytes.fromhex(head.split()[1])
+        body = f[48 + 20 * c.T:]
+        nfull = c.n // CH
+        for k in range(c.T, nfull):
+            prev = body[(k - c.T) * CH:(k - c.T + 1) * CH]
+            sid = "s%d_%d" % (j, k)
+            sl.append("%s mode e %d %s %s %s" % (sid, c.cm, c.key.hex(), (prev[-16:] + b"\0\0\0\0").hex(), c.plain[k * CH:(k + 1) * CH].hex()))
+            smeta[sid] = (c, k, body[k * CH:(k + 1) * CH])
+    so = wv.run_lines([mdrv, "spec"], sl)
+    for sid, (c, k, got) in smeta.items():
+        ck.cov["evaluations"] += 1
+        if so.get(sid) != got.hex():
+            ck.violation("chunk %d of a %s file does not continue the stream of chunk %d (same worker): its first block does not chain on that chunk's last ciphertext block (T=%d)" % (k, "CBC" if c.cm == 1 else "CFB", k - c.T, c.T),
+                         {"class": None, "case": c.line()[:3000], "chunk": k, "T": c.T, "cmode": c.cm, "implementation_chunk": got.hex(), "expected_chunk": so.get(sid), "chunk_bytes": CH, "driver_flags": ck.impl_flags})
+            break
+    dist["stream-continuity-across-chunks"] = len(smeta)
     # a caller that keeps ONE seed buffer and encrypts several files with it in one process (the driver hands equal seed values to the
     # library in the same buffer): every file's IV slots must still be the chain of THAT seed
     hl, hmeta = [], {}
